@@ -15,6 +15,7 @@ type GenOpts struct {
 	ZeroLat     bool   // allow DirLatency/BankLatency == 0 on write-through caches
 	MemKind     string // force memory kind
 	MaxDrivers  int
+	RspStall    bool // a third of the drivers are slow requesters (RspStallPct 30-90)
 }
 
 func pick[T any](rng *rand.Rand, xs ...T) T { return xs[rng.Intn(len(xs))] }
@@ -160,6 +161,9 @@ func RandomStackCfg(rng *rand.Rand, o GenOpts) StackCfg {
 		}
 		if numLines*line > 64*256 {
 			ds.NumLines = 64 * 256 / line
+		}
+		if o.RspStall && rng.Intn(3) == 0 {
+			ds.RspStallPct = pick(rng, 30, 60, 90)
 		}
 		cfg.Drivers = append(cfg.Drivers, ds)
 	}
